@@ -56,7 +56,10 @@ AccErr == ~T.ref.ok \/ T.quirk1f
 
 NoSpuriousError == phase = "failed" => AccErr
 Finished        == phase \in {"flushed", "ended"}
-OutputEqual     == (Finished /\ AccOk) => out = T.ref.out
+\* (big bodies - megabytes of output - are recorded run-length encoded, <<octet, count>> pairs in normal form, and
+\* only as the total the caller's file holds at the end; the pieces' own outputs are not listed)
+Big             == "big" \in DOMAIN T /\ T.big
+OutputEqual     == (Finished /\ AccOk) => (IF Big THEN (phase = "ended" => out = T.ref.out) ELSE out = T.ref.out)
 ErrorReported   == Finished => AccOk
 ErrorClass      == err \in {"none", IF T.path = "stream" THEN "protocol" ELSE "zlib"}
 WholeBodyFed    == Finished => fed = T.n
